@@ -25,6 +25,7 @@ def ipfix_inserts():
             s(300, [10, 0, 0, 1, 9, 9, 9, 9]), s(300, [10, 0, 0, 1, 9, 9, 9, 9, 10, 0, 0, 2, 8, 8, 8, 8]),
             s(301, [1, 2, 3, 4, 5, 6, 7, 8]), s(302, [1, 2, 3, 4, 5, 6, 7, 8, 9, 10, 11, 12]),
             s(303, [1, 2, 3, 4, 5, 6, 7, 8]), s(303, [1, 2, 3, 4, 5, 6, 7, 8] * 2),
+            s(304, [3, 1, 2, 3, 10, 0, 0, 1]), s(304, [255, 0, 9] + [7] * 9 + [10, 0, 0, 2]), s(306, [10, 0, 0, 1, 10, 0, 0, 2]),
             # many undecodable sets in a row (each raises its own non-fatal error)
             s(999, [7]) * 12, s(300, [10, 0, 0, 1, 9, 9, 9, 9]) * 9 + s(999, []) * 3 + s(5, [1]) * 2,
             s(999, [7]) * 16, s(998, []) * 17, s(999, [7]) * 40,
@@ -47,13 +48,19 @@ def _set(sid, body):
 TGOOD_MSG = _ipfix_msg([_set(2, _u16(300) + _u16(2) + _u16(8) + _u16(4) + _u16(12) + _u16(4)
                                + _u16(301) + _u16(1) + _u16(8) + _u16(4)
                                + _u16(302) + _u16(1) + _u16(12) + _u16(4)
-                               + _u16(303) + _u16(2) + _u16(8) + _u16(4) + _u16(4) + _u16(1))])
+                               + _u16(303) + _u16(2) + _u16(8) + _u16(4) + _u16(4) + _u16(1)
+                               + _u16(304) + _u16(1) + _u16(8) + _u16(4)
+                               + _u16(306) + _u16(1) + _u16(8) + _u16(4))])
 # ... then redefined so that its data sets cannot be decoded: 300 uses an element missing from the model; 301 and 302 describe
 # records longer than any datagram (field lengths adding up to 65539 and 65540: beyond 16 bits); 303 is an options template
 # whose SCOPE field is missing from the model
 TBAD_MSG = _ipfix_msg([_set(2, _u16(300) + _u16(2) + _u16(8) + _u16(4) + _u16(9999) + _u16(4)
                               + _u16(301) + _u16(2) + _u16(8) + _u16(4) + _u16(9999) + _u16(65535)
-                              + _u16(302) + _u16(2) + _u16(9998) + _u16(32768) + _u16(9999) + _u16(32772)),
+                              + _u16(302) + _u16(2) + _u16(9998) + _u16(32768) + _u16(9999) + _u16(32772)
+                              # 304: a structured-data element (basicList, known to the model, neither string nor octet array) marked
+                              # variable-length; 306: the SAME element id and length as before, now enterprise-specific (unknown)
+                              + _u16(304) + _u16(2) + _u16(291) + _u16(65535) + _u16(8) + _u16(4)
+                              + _u16(306) + _u16(1) + _u16(0x8000 | 8) + _u16(4) + [0, 0, 16, 146]),
                        _set(3, _u16(303) + _u16(2) + _u16(1) + _u16(9999) + _u16(4) + _u16(8) + _u16(4))])
 
 
